@@ -27,7 +27,7 @@ type pgDb struct {
 	schema string
 	prefix uint8
 	prepd  bool
-	it     pgx.Rows
+	it     [][2][]byte // rows of the current listing that have not been handed out yet
 	itBase []byte
 	tx     pgx.Tx
 	multi  bool
